@@ -34,7 +34,12 @@ type c07iPlan struct {
 	Ansi       int    `json:"ansi"`     // every Ansi-th record carries SGR sequences and --ansi is given
 	NoColor    bool   `json:"no_color"` // --no-color: --ansi still means the sequences are not part of the record
 	Prints     bool   `json:"prints"`   // alt-r: print(queued), alt-y: print()
-	End        string `json:"end"`      // enter | esc | alt-e (expect key) | f2 (expect key) | alt-p (print-query) | alt-o (accept-or-print-query) | alt-n (accept-non-empty)
+	// OneK >= 0: `--bind one:accept` and alt-k: change-query(#OneK) - the cursor is moved up first, then the query
+	// leaves exactly that record: fzf accepts it on its own (End is not pressed)
+	OneK int `json:"one_k"`
+	// LongRunes: this many long records outside ASCII are added; with Read0 the records are NUL-terminated
+	LongRunes int    `json:"long_runes,omitempty"`
+	End       string `json:"end"` // enter | esc | alt-e (expect key) | f2 (expect key) | alt-p (print-query) | alt-o (accept-or-print-query) | alt-n (accept-non-empty)
 }
 
 func fieldLines(seed uint64, n int, delim string) []string {
@@ -210,7 +215,31 @@ func genC07iPlan(r *zsim.Rng) *c07iPlan {
 	if r.Chance(1, 2) {
 		p.Multi = -1
 	}
+	if r.Chance(1, 5) {
+		p.LongRunes = r.Range(1, 4)
+		p.Read0 = r.Chance(1, 2)
+		if p.Delim == "" {
+			p.AcceptNth = "" // consecutive blanks inside the long records are not what the field model is about
+		}
+	}
 	p.End = []string{"enter", "enter", "esc", "alt-e", "f2", "alt-p", "alt-o", "alt-n", "ctrl-c"}[r.Intn(9)]
+	p.OneK = -1
+	if !p.Select1 && !p.Exit0 && p.Query == "" && r.Chance(1, 6) {
+		p.NLines = r.Range(2, 10)
+		p.OneK = r.Intn(p.NLines)
+		p.WithNth = ""
+		p.LongRunes, p.Read0 = 0, false // "#K" must designate one record
+		p.End = "one"
+		p.Events = append(p.Events, sysEvent{Kind: "settle"})
+		for i := r.Range(0, 9); i > 0; i-- {
+			p.Events = append(p.Events, sysEvent{Kind: "keys", Keys: pick(r, "alt-u", "alt-u", "alt-u", "alt-d", "alt-t")})
+			if r.Chance(1, 2) {
+				p.Events = append(p.Events, sysEvent{Kind: "settle"})
+			}
+		}
+		p.Events = append(p.Events, sysEvent{Kind: "keys", Keys: "alt-k", DelayMs: r.Intn(20)}, sysEvent{Kind: "settle"})
+		return p
+	}
 	p.Events = append(p.Events, sysEvent{Kind: "settle"})
 	keys := []string{"alt-u", "alt-u", "alt-d", "alt-t", "alt-t", "alt-t", "alt-z"}
 	if p.Prints = r.Chance(1, 3); p.Prints {
@@ -230,13 +259,19 @@ func runC07i(c *runCtx) {
 	}
 	c.plan = plan
 	sp := &plan.sysPlan
-	base := len(sp.Args)
-	defer func() { sp.Args = sp.Args[:base] }()
+	// every option is derived from the plan's own fields (a recorded plan may carry the options of the run
+	// that recorded it: they are dropped, never added to)
+	sp.Args = nil
+	base := 0
+	defer func() { sp.Args = nil }()
 	add := func(a ...string) { sp.Args = append(sp.Args, a...) }
 	add("--bind", "alt-u:up", "--bind", "alt-d:down", "--bind", "alt-t:toggle-in", "--bind", "alt-p:print-query", "--bind", "alt-z:change-query(zqzq)",
 		"--bind", "alt-o:accept-or-print-query", "--bind", "alt-n:accept-non-empty")
 	if plan.Prints {
 		add("--bind", "alt-r:print(queued)", "--bind", "alt-y:print()")
+	}
+	if plan.OneK >= 0 && plan.End == "one" {
+		add("--bind", "one:accept", "--bind", "alt-k:change-query(#"+strconv.Itoa(plan.OneK)+")")
 	}
 	if plan.PrintQuery {
 		add("--print-query")
@@ -272,6 +307,20 @@ func runC07i(c *runCtx) {
 		add("--query", plan.Query)
 	}
 	lines := fieldLines(plan.Fields, clampInt(plan.NLines, 0, 500), plan.Delim)
+	if plan.LongRunes > 0 {
+		// records outside ASCII, wider than the window (drawn cut off, printed whole)
+		lr := zsim.NewRng(zsim.Mix(plan.Fields, 77))
+		for k := clampInt(plan.LongRunes, 1, 6); k > 0; k-- {
+			var b strings.Builder
+			for w := lr.Range(20, 60); w > 0; w-- {
+				for l := lr.Range(1, 6); l > 0; l-- {
+					b.WriteString(string([]rune("abcdefàéîöüß日本")[lr.Intn(14)]))
+				}
+				b.WriteByte(' ')
+			}
+			lines = append(lines, b.String()+"#"+strconv.Itoa(len(lines)))
+		}
+	}
 	fed := lines // what goes into stdin
 	if plan.Ansi > 0 {
 		// with --ansi the sequences are removed from the record: what is printed is `lines`, what is fed is decorated
@@ -305,6 +354,7 @@ func runC07i(c *runCtx) {
 		m.multi = int(maxMulti)
 	}
 	applied := 0
+	var applyEvents func(r *sysRun, upTo int)
 	var printQueue []string // print(...): strings to print on normal exit, after the query / key lines
 	curQuery := plan.Query
 	r.onSettle = func(r *sysRun, busy bool, final bool) {
@@ -318,15 +368,26 @@ func runC07i(c *runCtx) {
 					m.list = []int32{}
 				}
 			}
+			applyEvents(r, r.settleN)
+		}
+	}
+	// keys delivered behind the last settle that was serviced (a minimised plan may lack settles): applied
+	// in one go before the output is compared; a list change among them makes the outcome a matter of timing
+	inexactTail := false
+	applyEvents = func(r *sysRun, upTo int) {
+		{
 			n := 0
 			for i := range sp.Events {
 				ev := sp.Events[i]
 				if ev.Kind == "settle" {
 					n++
-					if n >= r.settleN {
+					if n >= upTo {
 						break
 					}
 					continue
+				}
+				if upTo > len(sp.Events) && i >= applied && ev.Keys == "alt-z" {
+					inexactTail = true
 				}
 				if i < applied {
 					continue
@@ -405,6 +466,10 @@ func runC07i(c *runCtx) {
 	case m.list == nil:
 		return // the session never settled in the interface: nothing to compare
 	default:
+		applyEvents(r, len(sp.Events)+2)
+		if inexactTail {
+			return
+		}
 		sel := func() []string {
 			var o []string
 			if len(m.sel) > 0 {
@@ -429,7 +494,27 @@ func runC07i(c *runCtx) {
 		if end == "alt-e" && !plan.Expect || end == "f2" && !plan.Expect {
 			end = "unbound"
 		}
+		if end == "one" {
+			pressed := false
+			for _, ev := range sp.Events {
+				pressed = pressed || ev.Kind == "keys" && ev.Keys == "alt-k"
+			}
+			if !pressed || plan.OneK < 0 || plan.OneK >= len(lines) || len(lines) > 10 {
+				end = "unbound"
+			}
+		}
 		switch end {
+		case "one":
+			// the query leaves exactly record OneK; `one:accept` prints the selection if there is one, else that record
+			curQuery = "#" + strconv.Itoa(plan.OneK)
+			header("")
+			if len(m.sel) > 0 {
+				want = append(want, sel()...)
+			} else {
+				want = append(want, out(int32(plan.OneK)))
+			}
+			wantCode = ExitOk
+			c.count("probe.one_accept", 1)
 		case "enter", "alt-e", "f2":
 			key := ""
 			if end != "enter" {
@@ -514,7 +599,7 @@ func genC18sPlan(r *zsim.Rng) *c18sPlan {
 		ses := c18Session{End: []string{"enter", "enter", "enter", "esc", "ctrl-c", "alt-p", "alt-b"}[r.Intn(7)]}
 		for k := r.Intn(10); k > 0; k-- {
 			// alt-s: search(hx) - what is searched is not what was typed; the history records the query line
-			ses.Steps = append(ses.Steps, []string{"a", "b", "z", "q", "ctrl-p", "ctrl-p", "ctrl-n", "bspace", "alt-s"}[r.Intn(9)])
+			ses.Steps = append(ses.Steps, []string{"a", "b", "z", "q", "ctrl-p", "ctrl-p", "ctrl-n", "bspace", "alt-s", "alt-t", "ctrl-p", "ctrl-n"}[r.Intn(12)])
 		}
 		p.Sessions = append(p.Sessions, ses)
 	}
@@ -552,7 +637,10 @@ func runC18s(c *runCtx) {
 	for si, ses := range plan.Sessions {
 		sp := plan.sysPlan
 		sp.Args = append(append([]string{}, plan.sysPlan.Args...), "--history", path, "--history-size", strconv.Itoa(plan.Max),
-			"--bind", "alt-s:search(hx)", "--bind", "alt-p:print-query", "--bind", "alt-b:become(BE {})")
+			"--bind", "alt-s:search(hx)", "--bind", "alt-p:print-query", "--bind", "alt-b:become(BE {})",
+			// alt-t: the query line is replaced by the output of a command - an edit like any other
+			"--bind", "alt-t:transform-query(TQ 1)")
+		sp.Procs = []procSpec{{Text: "tq\n"}}
 		sp.Events = []sysEvent{{Kind: "settle"}}
 		for _, k := range ses.Steps {
 			sp.Events = append(sp.Events, sysEvent{Kind: "keys", Keys: k}, sysEvent{Kind: "settle"})
@@ -602,6 +690,8 @@ func runC18s(c *runCtx) {
 					input = input[:len(input)-1]
 				}
 			case "alt-s":
+			case "alt-t":
+				input = "tq"
 			default:
 				input += k
 			}
